@@ -1,10 +1,12 @@
 """C18 - random draws, discrete / structural part.
 Design models: spec/Random/Rcont2.tla (AS 159 step by step: margins, non-negative
 entries, log-factorial index safety, termination) and spec/Random/Sampling.tla
-(sampling structure, refusals, seed reproducibility).
+(sampling structure, refusals, seed reproducibility), spec/Random/ScaleLaw.tla
+(meaning of the samplers' arguments as exact transformation laws under one seed,
+picks by inverse cdf).
 Binding: harness/drv_random.cpp traces (hook h2 per cell + public results)
-validated by Rcont2Trace.tla / SamplingTrace.tla.
-Not decided here: that the draws follow the named law (statistics)."""
+validated by Rcont2Trace.tla / SamplingTrace.tla / ScaleLawTrace.tla.
+Not decided here: goodness of fit of the draws to the named law (statistics)."""
 import glob
 import json
 import os
@@ -38,11 +40,21 @@ def _sa_cfg(path, seeds, calls, maxcalls, maxruns):
                 "INVARIANTS %s\nCHECK_DEADLOCK FALSE\n" % (seeds, calls, maxcalls, maxruns, SA_INV))
 
 
+def _sl_cfg(path, impl):
+    with open(path, "w") as f:
+        f.write("SPECIFICATION Spec\nCONSTANTS\n  ZMag = {1, 3}\n  ExpMax = 2\n  Impl = \"%s\"\nINVARIANTS LawHolds PickHolds\n"
+                "CHECK_DEADLOCK FALSE\n" % impl)
+
+
 def _sig(rj):
     ev = rj.event or {}
     act = ev.get("e")
     if act == "Call":
         act = "Call:" + str((ev.get("c") or {}).get("op"))
+    if act in ("Pair", "RandC"):
+        act = "%s:%s" % (act, ev.get("s"))
+    if act == "Inv":
+        act = "Inv:" + str(ev.get("op"))
     return {"action": act, "invariant": rj.invariant or "step"}
 
 
@@ -51,6 +63,8 @@ def _module_for(path):
         for ln in f:
             if '"e":"Call"' in ln:
                 return "SamplingTrace"
+            if '"e":"Pair"' in ln or '"e":"Inv"' in ln or '"e":"RandC"' in ln:
+                return "ScaleLawTrace"
     return "Rcont2Trace"
 
 
@@ -121,6 +135,23 @@ def _selftest_cases():
     bad[3]["c"]["k"] = 4
     bad[3]["r"]["out"] = [12, 10, 11, 12]           # over-long request served instead of refused
     cases.append(("sampling-overlong-served", "SamplingTrace", bad, False))
+    law = [{"e": "Reset"},
+           {"e": "Pair", "s": "rt.exp", "arg": 1, "f": 8, "seed": 1, "code": 8},
+           {"e": "Pair", "s": "dd.exp", "arg": 1, "f": 8, "seed": 1, "code": 2},
+           {"e": "Pair", "s": "rt.gauss", "arg": 2, "f": 16, "seed": 1, "code": 8},
+           {"e": "Pair", "s": "dd.gauss", "arg": 1, "d": 2, "seed": 1, "code": 4},
+           {"e": "Inv", "op": "multinom", "cum": [1, 1, 4], "r": [2, 0, 2], "tie": [False, False, False], "out": [2, 0, 2], "seed": 1},
+           {"e": "RandC", "s": "dd.beta", "dom": True, "rt": True, "skip": False, "seed": 1}]
+    cases.append(("law-good", "ScaleLawTrace", law, True))
+    bad = cp(law)
+    bad[1]["code"] = 2                              # doubling the mean halves the draw: read as a rate
+    cases.append(("law-mean-read-as-rate", "ScaleLawTrace", bad, False))
+    bad = cp(law)
+    bad[3]["code"] = 16                             # variance x 4 multiplies by 4: read as a standard deviation
+    cases.append(("law-variance-read-as-sd", "ScaleLawTrace", bad, False))
+    bad = cp(law)
+    bad[5]["out"] = [2, 1, 2]                       # a zero-mass category / not the category containing the uniform
+    cases.append(("law-pick-not-inverse-cdf", "ScaleLawTrace", bad, False))
     return cases
 
 
@@ -147,6 +178,14 @@ def run(tier, seed):
         _sa_cfg(cfg, seeds, calls, mc, mr)
         const = "Seeds={%s} CallSet=%s MaxCalls=%d runs=%d" % (seeds, calls, mc, mr + 1)
         jobs.append(("model", name, const, (lambda cfg=cfg: vc.model_check(SPEC, "SamplingMC", cfg, workers=3, coverage=True, timeout=3000, heap="8g"))))
+    cfg = os.path.join(wd, "sl-decl.cfg")
+    _sl_cfg(cfg, "decl")
+    jobs.append(("model", "ScaleLaw/declared", "ZMag={1,3} ExpMax=2 Impl=decl (9 samplers, every argument, factors 1/4..4, shifts, inverse-cdf picks)",
+                 (lambda cfg=cfg: vc.model_check(SPEC, "ScaleLaw", cfg, workers=3, coverage=True, timeout=1800, heap="4g"))))
+    for impl in ("expAsRate", "gaussSd", "gammaScale"):
+        cfg = os.path.join(wd, "sl-%s.cfg" % impl)
+        _sl_cfg(cfg, impl)
+        jobs.append(("control2", impl, "", (lambda cfg=cfg: vc.tlc(SPEC, "ScaleLaw", cfg, workers=1, timeout=900, extra=("-noGenerateSpecTE",)))))
     for name, module, lines, accepted in _selftest_cases():
         jobs.append(("self", name, "", (lambda name=name, module=module, lines=lines, accepted=accepted: _expect(wd, name, module, lines, accepted))))
     with ThreadPoolExecutor(max_workers=8) as ex:
@@ -164,6 +203,10 @@ def run(tier, seed):
             if r.invariant != "IndexSafe":
                 raise vc.MachineryError("negative control: Rcont2 with StartRule=cast should violate IndexSafe, got %s\n%s" % (r.invariant, r.out[-2000:]))
             ck.extra["negative_control"] = "Rcont2 with the mis-parenthesised start value (StartRule=cast, MaxTot=3): TLC reports IndexSafe violated, as expected"
+        elif kind == "control2":
+            if r.invariant != "LawHolds":
+                raise vc.MachineryError("negative control: ScaleLaw with Impl=%s should violate LawHolds, got %s\n%s" % (name, r.invariant, r.out[-2000:]))
+            ck.extra["negative_control_" + name] = "ScaleLaw with the implementation reading '%s' of the arguments: TLC reports LawHolds violated, as expected" % name
         else:
             selfres[name] = r
     ck.extra["trace_spec_selftests"] = selfres
@@ -181,11 +224,12 @@ def run(tier, seed):
     runs = [(n, ["--mode", "tables-exh"] + a, "Rcont2Trace") for n, a in exh]
     runs += [("tables-rand", ["--mode", "tables-rand", "--n", 400 if quick else 5000, "--maxtot", 200], "Rcont2Trace"),
              ("sampling-exh", ["--mode", "sampling-exh", "--seeds", 16], "SamplingTrace"),
-             ("sampling-rand", ["--mode", "sampling-rand", "--n", 300 if quick else 4000], "SamplingTrace")]
+             ("sampling-rand", ["--mode", "sampling-rand", "--n", 300 if quick else 4000], "SamplingTrace"),
+             ("laws", ["--mode", "laws", "--seeds", 16], "ScaleLawTrace")]
     for name, args, module in runs:
         tr = os.path.join(wd, "trace-%s.ndjson" % name)
         s = vc.run_driver(exe, args, tr, timeout=3000)
-        _validate(ck, tr, module, sample=2 if name in ("tables-rand", "sampling-rand") else 0)
+        _validate(ck, tr, module, sample=2 if name in ("tables-rand", "sampling-rand", "laws") else 0)
         vc.log("C18: %s: %s scenarios, %s events validated at %.0fs" % (name, s.get("scenarios"), s.get("events"), time.time() - ck.t0))
         ck.extra["scenarios_" + name] = s.get("scenarios", 0)
         os.remove(tr)
@@ -194,7 +238,9 @@ def run(tier, seed):
                "2..5 rows/columns and total <= %d x 2 seeds, random margins to total 200 with 2..5 rows/columns in multi-generator "
                "histories (refused constructions, copies, ContingencyTableTest with 0..4 permutations); sampling: getSample for source "
                "sizes 0..12 x sample sizes 0..14 x {plain, weighted} x {with, without replacement} x 16 seeds + pickOne variants, "
-               "random runs of all call kinds re-played under the same seed; non-trivial = scenario with at least one draw"
+               "random runs of all call kinds re-played under the same seed; argument conventions: pairs of draws under one seed "
+               "differing in one argument (factors 1/4, 1/2, 2, 4, shifts) for 4 RandomTools samplers and 5 distribution classes x 16 seeds, "
+               "inverse-cdf picks with the rank of the uniform, randC domain + quantile round trip; non-trivial = scenario with at least one draw"
                % (("6 x 16 seeds", 3) if quick else ("10 x 16 seeds, 11..12 x 4 seeds", 4)))
     ck.distinct = ck.traces
     ck.assumptions = ["TLC 1.8.0; CommunityModules Json",
@@ -202,7 +248,8 @@ def run(tier, seed):
                       "real-valued comparisons of AS 159 (x >= dummy, sumprb >= dummy) are nondeterministic in the model; a redraw "
                       "scales the threshold to at most the full accumulated mass, so the second pass accepts (termination)",
                       "a size_t index is inside fact_[0..ntot] iff its mathematical value is; wrapped values are logged as signed 64-bit",
-                      "distributional correctness (draws follow the named law) is not decided by this technique"]
+                      "argument conventions are decided through exact transformation laws under one seed (power-of-two factors; codes recognised "
+                      "at relative 1e-12, shifts at 1e-9); goodness of fit of the draws to the law is not decided by this technique"]
     return ck.finish()
 
 
